@@ -15,6 +15,7 @@ REGENERATED = {
     "C09": "gen/exprs.py: exit-status decisions, the --timeout timer",
     "C10": "gen/commands.py: vocabulary",
     "C12": "gen/screen.py: updateRectangle / updateDesktopSize",
+    "C13": "gen/exprs.py: the advertised encodings list",
     "C14": "gen/exprs.py: _vnc_des key schedule",
     "C16": "gen/dispatch.py: recorder dispatch (run-the-model tie)",
     "C17": "gen/recorder.py: handle_keyEvent / handle_pointerEvent; gen/dispatch.py",
